@@ -257,6 +257,8 @@ def eval_case(ctx, case, props):
     ctx.case_done(case, nontrivial=len(decls) >= 3)
     outcomes = []
     skipped = False
+    declared = {}            # forward links as declared by the accepted calls: master index -> slave index
+    case['_declared'] = declared
     for di, d in enumerate(decls):
         before = state(objs)
         exp = expected(pool, objs, d)
@@ -271,6 +273,8 @@ def eval_case(ctx, case, props):
         except Exception as ex:  # noqa: BLE001
             got = ('err', type(ex).__name__)
         after = state(objs)
+        if got[0] == 'ok':
+            declared[d[1]] = d[2]
         outcomes.append((got, after != before))
         ctx.count(f'{d[0]} ' + (got[0] if got[0] == 'ok' else got[1]))
         if exp[0] == 'skip':
@@ -366,6 +370,20 @@ def check_assembly(ctx, case, pool, objs, motors, kv):
             ctx.count('cyclic drives graph (Powertrain would not terminate): skipped')
             continue
         names = [o.name for o in chain]
+        # the chain as the accepted declarations define it (each element drives the slave of the last accepted call
+        # that named it as master), independently of the objects' own links
+        declared = case.get('_declared')
+        if declared is not None:
+            want, cur, seen = [mi], mi, {mi}
+            while cur in declared and declared[cur] not in seen:
+                cur = declared[cur]
+                want.append(cur)
+                seen.add(cur)
+            if cur in declared and declared[cur] in seen:
+                want = None
+            if want is not None and [objs.index(o) for o in chain] != want:
+                ctx.violation(case, {'why': f'the objects are linked as {[objs.index(o) for o in chain]} but the accepted declarations define the chain {want}'})
+                continue
         try:
             pt = Powertrain(objs[mi])
             got = ('ok',)
@@ -398,6 +416,38 @@ def check_assembly(ctx, case, pool, objs, motors, kv):
                 pass
             except Exception as ex:  # noqa: BLE001
                 ctx.violation(case, {'why': f'assigning Powertrain.{attr} raised {type(ex).__name__} instead of AttributeError'})
+        # the flag is the one defined at assembly: a powertrain whose flag has not been read yet keeps it when a worm
+        # mating of the chain is declared again with a friction coefficient on the other side of the threshold
+        for wi, o in enumerate(chain):
+            if isinstance(o, WormGear) and o.self_locking is not None:
+                mate = o.drives if isinstance(o.drives, WormWheel) and o.drives.driven_by is o else \
+                    (o.driven_by if isinstance(o.driven_by, WormWheel) and o.driven_by.drives is o else None)
+                if mate is None:
+                    continue
+                master, slave = (o, mate) if o.drives is mate else (mate, o)
+                thr = o.pressure_angle.cos() * o.helix_angle.tan()
+                f_old = None
+                # friction coefficients on both sides that keep the efficiency within [0, 1]
+                cands = [thr * 0.5, thr * 0.25] if o.self_locking else [min(thr * 1.5, 1.0), min(thr * 1.2, 1.0)]
+                pt2 = Powertrain(objs[mi])
+                eff0, sl0 = slave.master_gear_efficiency, o.self_locking
+                flipped = False
+                for f2 in cands:
+                    try:
+                        add_worm_gear_mating(master, slave, f2)
+                        flipped = o.self_locking != sl0
+                        break
+                    except Exception:  # noqa: BLE001
+                        continue
+                if flipped:
+                    ctx.count('worm mating declared again across the self-locking threshold after assembly')
+                    if bool(pt2.self_locking) != want_sl:
+                        ctx.violation(case, {'why': f'self_locking of an assembled powertrain became {pt2.self_locking} when a worm mating was '
+                                                    f'declared again afterwards (it was {want_sl} at assembly)'})
+                # put the original relation back (efficiency and flag as before)
+                slave.master_gear_efficiency = eff0
+                o.self_locking = sl0
+                break
         # neither does any public method: reset (here on a powertrain that has not been simulated; the simulated
         # case is exercised by `simulated_cases`)
         before = (tuple(id(e) for e in pt.elements), pt.self_locking)
